@@ -83,6 +83,7 @@ theorem slice_member_inv (shape axes : List Nat) (its nits : List Item) (res : L
   have hmlen := memberItems_length shape.length axes its
   have hnoell := memberItems_noEllipsis shape.length axes its hbasic'
   simp only [normItems, bind, Except.bind] at hnorm
+  rw [stripEmptyEllipsis_of_ne _ _ (Or.inl (by omega))] at hnorm
   split at hnorm
   · cases hnorm
   · rename_i san hsan
